@@ -1296,7 +1296,11 @@ func (fb *FB) successFacts(ev ssa.Value, out []Lin) []Lin {
 		}
 	}
 	if len(consts) > 0 {
-		sum = append(append([]Lin{}, sum...), fb.c.successSummaryConst(callee, consts)...)
+		for _, s := range fb.c.successSummaryConst(callee, consts) {
+			if l, ok := fb.instantiateSummaryFact(call, callee, s); ok {
+				out = append(out, l)
+			}
+		}
 	}
 	for _, s := range sum {
 		// substitute parameters and the function's non-error results
@@ -1425,6 +1429,83 @@ func (c *Ctx) successSummary(fn *ssa.Function, depth int) []Lin {
 	}
 	m[fn] = common
 	return common
+}
+
+// summarySyms: like onlyParamSyms, but values read through a parameter (p.f, len(p.f.g)) count too, provided neither fn
+// nor anything it reaches stores to those fields.
+func (c *Ctx) summarySyms(fn *ssa.Function, l Lin) bool {
+	for k := range l.T {
+		if onlyParamSyms(fn, Lin{T: map[interface{}]int64{k: 1}}) {
+			continue
+		}
+		var v ssa.Value
+		switch kk := k.(type) {
+		case lenKey:
+			v = kk.v
+		case ssa.Value:
+			v = kk
+		default:
+			return false
+		}
+		_, fields, ok := fieldPath(fn, v)
+		if !ok {
+			return false
+		}
+		stored := c.TransitiveFieldStores(fn)
+		for _, f := range fields {
+			for key := range stored {
+				if strings.HasSuffix(key, "."+f.Name()) {
+					return false
+				}
+			}
+		}
+	}
+	return true
+}
+
+// instantiateSummaryFact: a callee fact over parameters, their lengths, value results and parameter field paths, re-expressed
+// over the caller's values at this call.
+func (fb *FB) instantiateSummaryFact(call *ssa.Call, callee *ssa.Function, s Lin) (Lin, bool) {
+	l := linConst(s.C)
+	for k, coef := range s.T {
+		var arg Lin
+		good := false
+		switch kk := k.(type) {
+		case *ssa.Parameter:
+			if i := paramIndex(callee, kk); i >= 0 && i < len(call.Call.Args) {
+				arg, good = fb.lin(call.Call.Args[i]), true
+			}
+		case lenKey:
+			if p, isP := kk.v.(*ssa.Parameter); isP {
+				if i := paramIndex(callee, p); i >= 0 && i < len(call.Call.Args) {
+					arg, good = fb.lenLin(call.Call.Args[i]), true
+				}
+			} else if i, fields, isPath := fieldPath(callee, kk.v); isPath && i < len(call.Call.Args) {
+				if pv := fb.pathValue(call.Call.Args[i], fields); pv != nil {
+					arg, good = fb.lenLin(pv), true
+				}
+			}
+		case resultKey:
+			if call.Call.Signature().Results().Len() > 1 {
+				for _, ref := range *call.Referrers() {
+					if ex, isEx := ref.(*ssa.Extract); isEx && ex.Index == kk.i {
+						arg, good = fb.lin(ex), true
+					}
+				}
+			}
+		case ssa.Value:
+			if i, fields, isPath := fieldPath(callee, kk); isPath && i < len(call.Call.Args) {
+				if pv := fb.pathValue(call.Call.Args[i], fields); pv != nil {
+					arg, good = fb.lin(pv), true
+				}
+			}
+		}
+		if !good {
+			return Lin{}, false
+		}
+		l = l.add(arg, coef)
+	}
+	return l, true
 }
 
 func onlyParamSyms(fn *ssa.Function, l Lin) bool {
@@ -2132,7 +2213,11 @@ func (fb *FB) narrowOpFits(x *ssa.BinOp) bool {
 
 // linThroughHelper: ex is result 0 of a static call to a module helper whose single success return computes its value from
 // the parameters by +, -, * (one factor constant after binding); gives that expression over the caller's arguments.
-func (fb *FB) linThroughHelper(ex *ssa.Extract) (Lin, bool) {
+func (fb *FB) linThroughHelper(ex *ssa.Extract) (Lin, bool) { return fb.linThroughHelperSubst(ex, nil) }
+
+// linThroughHelperSubst: the same with a substitution applied to the argument forms (constant parameters of the enclosing
+// function at a particular call site).
+func (fb *FB) linThroughHelperSubst(ex *ssa.Extract, subst func(Lin) Lin) (Lin, bool) {
 	call, ok := ex.Tuple.(*ssa.Call)
 	if !ok {
 		return Lin{}, false
@@ -2174,7 +2259,11 @@ func (fb *FB) linThroughHelper(ex *ssa.Extract) (Lin, bool) {
 			}
 		case *ssa.Parameter:
 			if i := paramIndex(callee, y); i >= 0 {
-				return fb.lin(call.Call.Args[i]), true
+				l := fb.lin(call.Call.Args[i])
+				if subst != nil {
+					l = subst(l)
+				}
+				return l, true
 			}
 		case *ssa.Convert:
 			if isIntType(y.Type()) && isIntType(y.X.Type()) {
@@ -2426,12 +2515,27 @@ func (c *Ctx) successSummaryConst(fn *ssa.Function, consts map[int]int64) []Lin 
 				facts = append(facts, num.add(q, -den.C), q.scale(den.C).add(linConst(den.C-1), 1).add(num, -1))
 			}
 		}
+		// results of checked-arithmetic helpers that become linear once the constants are known
+		seenEx := map[*ssa.Extract]bool{}
+		for _, f := range append([]Lin{}, facts...) {
+			for k := range f.T {
+				ex, ok := k.(*ssa.Extract)
+				if !ok || seenEx[ex] || ex.Index != 0 {
+					continue
+				}
+				seenEx[ex] = true
+				if l, ok := fb.linThroughHelperSubst(ex, subst); ok {
+					e := linSym(ssa.Value(ex))
+					facts = append(facts, e.add(l, -1), l.add(e, -1))
+				}
+			}
+		}
 		// eliminate callee-local symbols
 		for round := 0; round < 4; round++ {
 			var local interface{}
 			for _, f := range facts {
 				for k := range f.T {
-					if !onlyParamSyms(fn, Lin{T: map[interface{}]int64{k: 1}}) {
+					if !c.summarySyms(fn, Lin{T: map[interface{}]int64{k: 1}}) {
 						local = k
 					}
 				}
@@ -2466,7 +2570,7 @@ func (c *Ctx) successSummaryConst(fn *ssa.Function, consts map[int]int64) []Lin 
 		}
 		var keep []Lin
 		for _, f := range facts {
-			if !f.isConst() && onlyParamSyms(fn, f) {
+			if !f.isConst() && c.summarySyms(fn, f) {
 				keep = append(keep, f)
 			}
 		}
